@@ -102,6 +102,7 @@ template <class K> struct Slot {
     Workspace ws;
     int last_cls = XC_NONE;
     double last_thresh = 1.0;
+    bool lu_nostruct = false;     // factors of an incomplete LU that re-used a row permutation: structure not judged (C15's content)
 };
 
 struct BridgeHandle { bool live = false; bool valid = false; fptr f = 0; int n = 0; int slotmat = 0; std::vector<int_t> rowind1, colptr1; void *values = nullptr;
@@ -403,8 +404,11 @@ template <class K> struct World {
         int n = s.n; bool query = (o.lwork == -1);
         // ---- documented preconditions of the Fact modes (the history model) ----
         if (o.fact == SamePattern && !(s.have_pattern && s.last_cls != XC_NOSPACE)) { r.skipped = true; r.skip_reason = "SamePattern without a remembered ordering"; return; }
-        if (o.fact == SamePattern_SameRowPerm && !(s.lu_valid && !ilu && !s.lu_ilu)) { r.skipped = true; r.skip_reason = "SameRowPerm without valid factors"; return; }
+        if (o.fact == SamePattern_SameRowPerm && !(s.lu_valid && s.lu_ilu == ilu)) { r.skipped = true; r.skip_reason = "SameRowPerm without valid factors of the same kind"; return; }
         if (o.fact == FACTORED && !(s.lu_valid && s.lu_ilu == ilu)) { r.skipped = true; r.skip_reason = "FACTORED without valid factors"; return; }
+        // incomplete LU re-using the row permutation together with MC64: perm_r then mixes two row numberings (MC64's fold); what
+        // that combination should return is the content of C15 (not claimed)
+        if (ilu && o.fact == SamePattern_SameRowPerm && o.rowperm != NOROWPERM) { r.skipped = true; r.skip_reason = "ILU SameRowPerm with MC64"; return; }
         if (query && o.fact == FACTORED) { r.skipped = true; r.skip_reason = "query with FACTORED"; return; }
         if (o.trans == CONJ && s.storage == 1 && K::cplx) o.trans = TRANS; // CONJ on row storage: outside the claimed properties
         if (s.storage == 1 && ilu) { /* fine */ }
@@ -521,7 +525,9 @@ template <class K> struct World {
         if (r.cls == XC_BREAKDOWN) serr = "ilu breakdown";
         if (have_factors && (r.cls == XC_OK || r.cls == XC_ILLCOND || r.cls == XC_SINGULAR)) {
             if (s.lu_lwork > 0) { serr = check_lu_inside_workspace(s); if (!serr.empty()) viol(r, "workspace", serr); }
-            if (serr.empty() && cfg.chk_structure) {
+            // (incomplete LU re-using a row permutation is exercised for memory safety only: what its factors should look like is C15's)
+            if (factored_now) s.lu_nostruct = (ilu && o.fact == SamePattern_SameRowPerm);
+            if (serr.empty() && cfg.chk_structure && !s.lu_nostruct) {
                 bool weak = (r.cls == XC_SINGULAR && !ilu); // no property constrains the structure of a singular return
                 serr = check_structure<K>(&s.L, &s.U, n, n, weak ? nullptr : s.perm_r, weak ? nullptr : s.perm_c, ilu, caps_of(s), weak);
                 if (!serr.empty() && !weak) viol(r, "structure:" + serr.substr(0, serr.find(' ')), serr);
